@@ -56,6 +56,13 @@ def main():
     print('confirmed' if ok else 'NOT CONFIRMED', json.dumps({k: v for k, v in confirm.items() if k != 'demo_with_change_tail'}))
     results = {}
     if ok and props:
+        # evidence/ and replays/ must keep describing the UNCHANGED tree: save them, restore afterwards
+        keep = '/tmp/seedtest_keep_%d' % os.getpid()
+        shutil.rmtree(keep, ignore_errors=True)
+        os.makedirs(keep)
+        for d in ('evidence', 'replays'):
+            if os.path.isdir(os.path.join(V, d)):
+                shutil.copytree(os.path.join(V, d), os.path.join(keep, d))
         rc, out = sh(['git', '-C', '/repo', 'apply', patch])
         try:
             assert rc == 0, out
@@ -69,6 +76,12 @@ def main():
             rc, out = sh(['git', '-C', '/repo', 'status', '--short'])
             if out.strip():
                 print('WARNING /repo not clean:', out)
+            for d in ('evidence', 'replays'):
+                if os.path.isdir(os.path.join(keep, d)):
+                    shutil.rmtree(os.path.join(V, d), ignore_errors=True)
+                    shutil.copytree(os.path.join(keep, d), os.path.join(V, d))
+            shutil.rmtree(keep, ignore_errors=True)
+            sh(['git', '-C', V, 'checkout', '--', 'lean/PegVerif/Generated'])
     meta['checks'] = results
     meta['what_was_run'] = 'bin/seedtest.py: scratch worktree confirmation (apply, go build, go test . ./set, demo.sh both ways), then bin/check <prop> --tier quick on /repo with the patch applied, then git checkout'
     json.dump(meta, open(os.path.join(dst, 'meta.json'), 'w'), indent=1)
